@@ -108,7 +108,8 @@ prop('C19',
      units=['bycycle.group.utils.check_kwargs_shape', 'bycycle.burst.cycle.detect_bursts_cycles',
             'bycycle.burst.amp.detect_bursts_amp', F + 'burst.compute_burst_fraction', F + 'burst.compute_amp_consistency',
             F + 'burst.compute_period_consistency', F + 'shape.compute_shape_features', CF,
-            'bycycle.objs.fit.Bycycle.fit', 'bycycle.objs.fit.Bycycle.plot', 'bycycle.burst.utils.check_min_burst_cycles'],
+            'bycycle.objs.fit.Bycycle.fit', 'bycycle.objs.fit.Bycycle.plot', 'bycycle.burst.utils.check_min_burst_cycles',
+            'bycycle.objs.fit.BycycleGroup.fit'],
      jobs=['kwargs_shape', 'detect_bursts_cycles', 'detect_bursts_amp', 'objects'],
      unit_jobs={'bycycle.group.utils.check_kwargs_shape': ['kwargs_shape'],
                 'bycycle.burst.cycle.detect_bursts_cycles': ['detect_bursts_cycles'],
@@ -198,10 +199,11 @@ prop('C10', level='other',
                  'bounded: corpus x centring x method x scale factors.')
 
 GF = 'bycycle.group.features.'
+BGF = 'bycycle.objs.fit.BycycleGroup.fit'
 prop('C11', level='other',
-     units=[GF + 'compute_features_2d', GF + '_proxy_2d', 'bycycle.group.utils.check_kwargs_shape'],
+     units=[GF + 'compute_features_2d', GF + '_proxy_2d', 'bycycle.group.utils.check_kwargs_shape', BGF],
      jobs=['group_2d'],
-     unit_jobs={GF + 'compute_features_2d': ['group_2d']},
+     unit_jobs={GF + 'compute_features_2d': ['group_2d'], BGF: ['group_2d']},
      no_input_kinds=('ensures', 'frame'),
      trusted=['multiprocessing.Pool.imap yields f(x_k) in input order whatever the number of workers and their completion '
               'order (assumed contract; imap_unordered is modelled as an arbitrary permutation)',
@@ -214,12 +216,15 @@ prop('C11', level='other',
                  'in-place pops: they hit the deep copy); a per-row list of the wrong length and every axis other than 0 / None '
                  'raise ValueError. CF is the uninterpreted per-signal analysis (compute_features itself is verified under C01-C07). '
                  'Independence of worker completion order inside multiprocessing is inherited from the imap contract; the bounded '
-                 'job perturbs completion order with injected delays. BycycleGroup.fit: bounded.')
+                 'job perturbs completion order with injected delays. BycycleGroup.fit (2-D): proved - the five settings reach '
+                 'compute_features_2d as one option set (the dict literal as an injective-by-name constructor over opaque values), its '
+                 'result is stored, and models[i] is a Bycycle object with the group\'s settings loaded with df_features[i] and sigs[i] '
+                 '(group-level view of the constructor and of load).')
 
 prop('C12', level='other',
-     units=[GF + 'compute_features_3d', GF + 'compute_features_2d', GF + '_proxy_3d', 'bycycle.group.utils.check_kwargs_shape'],
+     units=[GF + 'compute_features_3d', GF + 'compute_features_2d', GF + '_proxy_3d', 'bycycle.group.utils.check_kwargs_shape', BGF],
      jobs=['group_3d', 'kwargs_shape'],
-     unit_jobs={GF + 'compute_features_3d': ['group_3d'], GF + '_proxy_3d': ['group_3d']},
+     unit_jobs={GF + 'compute_features_3d': ['group_3d'], GF + '_proxy_3d': ['group_3d'], BGF: ['group_3d']},
      no_input_kinds=('ensures', 'frame'),
      explanation='Proved for all extents (n0, n1), size-1 dimensions included: with axis=(0,1) the nested result has n0 rows and '
                  'entry [i][j] is CF(sigs[i][j], options at [i][j]) for a shared dict, None and a 2-D option list - through the '
@@ -230,7 +235,9 @@ prop('C12', level='other',
                  'proved for compute_features_2d(axis=None) and carried by the contract of _proxy_3d), with axis=1 entry [i][j] is '
                  'table i of the epoched analysis of sigs[:, j] - through swapaxes, the per-slice pairing zip(sigs, kwargs) with a '
                  'shared option set repeated once per slice, the ordered imap contract and the final zip(*...) transposition; shared '
-                 'dict, None and per-slice 1-D lists. The bounded job repeats all of this on shapes up to 2x2 (3x3) against '
+                 'dict, None and per-slice 1-D lists. BycycleGroup.fit on 3-D input: df_features[i][j] is the entry the group '
+                 'function puts there and models[i][j] a model loaded with df_features[i][j] and sigs[i][j], for all three axis values '
+                 '(two nested loop invariants). The bounded job repeats all of this on shapes up to 2x2 (3x3) against '
                  'independent per-slice calls.')
 
 prop('C13', level='other', units=[DF + 'epoch_df', GF + 'compute_features_2d'], jobs=['epoch_df', 'group_epoched'],
@@ -252,16 +259,18 @@ prop('C13', level='other', units=[DF + 'epoch_df', GF + 'compute_features_2d'], 
 
 OB = 'bycycle.objs.fit.'
 prop('C14', level='other',
-     units=[OB + 'Bycycle.fit', OB + 'BycycleBase.reduce_thresholds', OB + 'BycycleBase.__init__', CF],
+     units=[OB + 'Bycycle.fit', OB + 'BycycleBase.reduce_thresholds', OB + 'BycycleBase.__init__', CF, BGF],
      jobs=['objects', 'group_2d', 'group_3d'],
+     unit_jobs={BGF: ['group_2d', 'group_3d']},
      explanation='Proved: Bycycle.fit hands exactly the stored settings (the very same option objects, positionally in the right '
                  'order) and the given signal / fs / band to compute_features and stores its result, for every typed setting '
                  'combination; the stored option dictionaries are not modified (compute_features has an empty frame); '
                  'reduce_thresholds returns a new dictionary with every *threshold key lowered by r and all others equal; the '
                  'constructor expands every shorthand name, keeps full names and min_n_cycles, and installs the documented defaults '
                  '(three representative names in both spellings plus min_n_cycles: 2^7 presence patterns). Since fit reads nothing but the current settings and its arguments, "a fit yields what a '
-                 'fresh object with the current settings yields" follows for every history. Bounded: recompute_edges / load / '
-                 'attribute access / BycycleGroup mirrors (operation sequences, incl. refits with the same array object).')
+                 'fresh object with the current settings yields" follows for every history. BycycleGroup.fit: models mirror df_features and sigs '
+                 'position by position for 2-D and 3-D input (proved at group level, see C11 / C12). Bounded: recompute_edges / load / '
+                 'attribute access (operation sequences, incl. refits with the same array object).')
 
 prop('C15', level='other',
      units=[CF, F + 'shape.compute_shape_features', F + 'shape.compute_durations', F + 'shape.compute_extrema_voltage',
